@@ -142,7 +142,25 @@ def _c10_lists(tier, seed):
             "assumptions": props_cl.ASSUME}
 
 
+def _c02_dispatcher(tier, seed):
+    # C02 also speaks of "a dispatcher's listener list": listeners and forEach functions that mutate, query, enumerate and re-dispatch
+    # their own dispatcher, under every threading policy (a lock held across user code is a hang under std::mutex / SpinLock)
+    quick = tier == "quick"
+    ops = {"al", "pl", "il", "rl", "ol", "hl", "fu", "dp"}
+    return {"interp": "harness/dq_interp.cpp", "trace_module": "TraceDQ",
+            "models": [{"module": "DQImpl", "tag": "reentrant-dispatcher", "invariants": props_dq.INV,
+                        "constants": props_dq.consts(events=(1, 2) if not quick else (1,), nodes=2 if quick else 3, enq=0, disp=2 if not quick else 1, depth=3, ops=ops,
+                                                     nest=ops - {"pl", "hl"} if quick else ops)}],
+            "worlds": [props_dq.world("rd_multi", obj=0, threading=1), props_dq.world("rd_spin_str", obj=0, threading=2, key=1, fraction=0.3, fill="0xFF"),
+                       props_dq.world("rd_single_queue", obj=1, threading=0, fraction=0.3, fill="0x00")],
+            "nontrivial_key": "nested",
+            "rule": "every transition of the bounded DQImpl model restricted to listener management, enumeration with a user function and dispatch, all of them "
+                    "also issued from listeners and from forEach functions (nesting depth 3), replayed under std::mutex, SpinLock and the single-threaded policy",
+            "assumptions": props_dq.ASSUME}
+
+
 COMPOSITE = {"C10": [_c10_plan, _c10_lists]}
+COMPOSITE["C02"] = [lambda tier, seed: props_cl.c02(tier, seed), _c02_dispatcher]
 def _c08_lists(tier, seed):
     quick = tier == "quick"
     c = props_cl.consts(3, 2, lists=2, ops={"a", "r", "v", "cc", "ma", "s", "d", "x"} if quick else {"a", "i", "r", "v", "cc", "ca", "mc", "ma", "s", "d", "x"},
